@@ -13,7 +13,7 @@ def run(ctx: Ctx) -> list[Ob]:
             "validates-on-construction",
             "every region graph handed out by the construction algorithms is validated only here",
         )
-    ] + r8.run_guards(ctx, r8.GUARDS_REGION_GRAPH) + r9.r9(ctx, ["cirkit.templates.region_graph.graph.RegionGraph.build_circuit"]) + (r9.r9_sweep(ctx) if ctx.tier == "thorough" else []) + r7n.structured(ctx) + r7n.identity(ctx)
+    ] + r8.run_guards(ctx, r8.GUARDS_REGION_GRAPH) + r9.r9(ctx, ["cirkit.templates.region_graph.graph.RegionGraph.build_circuit"]) + (r9.r9_sweep(ctx) if ctx.tier == "thorough" else []) + r7n.structured(ctx) + r7n.identity(ctx) + r7n.canonical(ctx)
 
 
 SPEC = PropSpec(
@@ -31,5 +31,5 @@ SPEC = PropSpec(
     ),
     not_decided="validity of the generated graphs as a function of run-time sizes / seeds; sufficiency of _check_structure; JSON round trip.",
     run=run,
-    floors={"R7n": 2, "R9": 1, "R8": 6, "R6": 1},
+    floors={"R7n": 3, "R9": 1, "R8": 6, "R6": 1},
 )
